@@ -96,6 +96,9 @@ func TestVerifZoo(t *testing.T) {
 		for _, mode := range []string{"apply", "stub"} {
 			b := mocker.Create()
 			seen := false
+			if os.Getenv("VERIF_LOG") == "debug-then-off" {
+				mocker.OpenDebug() // the replacement is wrapped by the logging interceptor at apply time ...
+			}
 			p := catchS(func() {
 				if mode == "apply" {
 					c.apply(b, &seen)
@@ -103,6 +106,9 @@ func TestVerifZoo(t *testing.T) {
 					c.stub(b)
 				}
 			})
+			if os.Getenv("VERIF_LOG") == "debug-then-off" {
+				mocker.CloseDebug() // ... and logging is switched off before the calls
+			}
 			if p != "" {
 				emit(mode, "configure", "-", false, p)
 				continue
